@@ -619,15 +619,26 @@ class WitnessScript(Script):
         return int(quorum_m), int(quorum_n)
 
 
+def check_base58_address(script_pubkey, s):
+    """Returns the ScriptPubKey if s is its address on some network
+    (right version byte and a 20-byte hash), raises otherwise"""
+    if len(decode_base58(s)) != 20 or s not in (
+        script_pubkey.address("mainnet"),
+        script_pubkey.address("testnet"),
+    ):
+        raise ValueError(f"not the address of a standard script: {s}")
+    return script_pubkey
+
+
 def address_to_script_pubkey(s):
     if s[:1] in ("1", "m", "n"):
         # p2pkh
         h160 = decode_base58(s)
-        return P2PKHScriptPubKey(h160)
+        return check_base58_address(P2PKHScriptPubKey(h160), s)
     elif s[:1] in ("2", "3"):
         # p2sh
         h160 = decode_base58(s)
-        return P2SHScriptPubKey(h160)
+        return check_base58_address(P2SHScriptPubKey(h160), s)
     elif s[:4] in ("bc1q", "tb1q") or s[:6] == "bcrt1q":
         # regtest p2wpkh is len 44, p2wsh is len 64 (2 extra for "bcrt" vs "bc"/"tb")
         if len(s) in (42, 44):
